@@ -28,7 +28,7 @@ func (t *Dense) Inner(other Tensor) (retVal interface{}, err error) {
 
 	// we do this check instead of the more common t.Shape()[1] != other.Shape()[0],
 	// basically to ensure a similarity with numpy's dot and vectors.
-	if t.len() != other.DataSize() {
+	if t.Size() != other.Size() {
 		return nil, errors.Errorf(shapeMismatch, t.Shape(), other.Shape())
 	}
 
